@@ -91,7 +91,7 @@ m("c12-allcycles-plus1", "emulator/cpu65c816/cpu.go", "\tcpu.AllCycles += uint64
 m("c12-onpc-dropped", "emulator/cpu65c816/cpu.go", "\tif cb, ok := cpu.OnPC[uint32(cpu.RK)<<16|uint32(cpu.PC)]; ok {\n\t\tcb()\n\t}\n", "", ["C12"])
 m("c12-onpc-ignores-bank", "emulator/cpu65c816/cpu.go", "cpu.OnPC[uint32(cpu.RK)<<16|uint32(cpu.PC)]", "cpu.OnPC[uint32(cpu.RK&0xFE)<<16|uint32(cpu.PC)]", ["C12"])
 m("c12-rununtil-pc16", "emulator/system.go", "\t\tif s.GetPC() == targetPC {\n\t\t\tbreak\n\t\t}", "\t\tif s.GetPC()&0xFFFF == targetPC&0xFFFF {\n\t\t\tbreak\n\t\t}", ["C12"])
-m("c12-rununtil-step-before-check", "emulator/system.go", "\t\tif s.GetPC() == targetPC {\n\t\t\tbreak\n\t\t}\n\t\tnCycles, _ := s.CPU.Step()\n\t\tcycles += uint64(nCycles)", "\t\tnCycles, _ := s.CPU.Step()\n\t\tcycles += uint64(nCycles)\n\t\tif s.GetPC() == targetPC {\n\t\t\tbreak\n\t\t}", ["C12"])
+m("c12-rununtil-step-before-check", "emulator/system.go", "\t\tif s.GetPC() == targetPC {\n\t\t\tbreak\n\t\t}\n\t\tif s.Logger != nil {\n\t\t\to := oa[:0]\n\t\t\to = s.CPU.DisassembleCurrentPC(o)\n\t\t\t_, _ = s.Logger.Write(o)\n\t\t}\n\t\tnCycles, _ := s.CPU.Step()\n\t\tcycles += uint64(nCycles)", "\t\tif s.Logger != nil {\n\t\t\to := oa[:0]\n\t\t\to = s.CPU.DisassembleCurrentPC(o)\n\t\t\t_, _ = s.Logger.Write(o)\n\t\t}\n\t\tnCycles, _ := s.CPU.Step()\n\t\tcycles += uint64(nCycles)\n\t\tif s.GetPC() == targetPC {\n\t\t\tbreak\n\t\t}", ["C12"])
 m("c12-zero-cycle-opcode", "emulator/cpu65c816/cpu.go", "{0xea, \"nop\", m_Implied, 1, 2, op_nop},", "{0xea, \"nop\", m_Implied, 1, 0, op_nop},", ["C12"])
 m("c12-wdm-callback-stale", "emulator/cpualt/cpu.go", "\tcpu.WDM = cpu.cmdRead()\n\n\t// invoke callback:\n\tonWDM := cpu.OnWDM\n\tif onWDM != nil {\n\t\tonWDM(cpu.WDM)", "\told := cpu.WDM\n\tcpu.WDM = cpu.cmdRead()\n\n\t// invoke callback:\n\tonWDM := cpu.OnWDM\n\tif onWDM != nil {\n\t\tonWDM(old)", ["C12"])
 m("c12-stopped-cleared-by-step", "emulator/cpualt/cpu.go", "\tcpu.PPC = cpu.PC\n\tcpu.PRK = cpu.RK\n", "\tcpu.PPC = cpu.PC\n\tcpu.PRK = cpu.RK\n\tcpu.Stopped = false\n", ["C12"])
